@@ -599,7 +599,7 @@ func ruleYY1(pkgs ...string) Rule {
 // LAST1: atomic.Value fields hold one type.
 
 func ruleLAST1() Rule {
-	return Rule{ID: "LAST1", Kind: "agreement", Floor: 3,
+	return Rule{ID: "LAST1", Kind: "agreement", Floor: 1,
 		Doc: "every Store into the lexer's atomic.Value passes an ast.Pos, the type its Load is asserted to",
 		Run: func(c *Ctx, rr *core.RuleResult) {
 			for _, f := range c.funcsOfPkg("parser", false) {
@@ -912,7 +912,7 @@ func ruleFLD2() Rule {
 // PF2: Quote shape produced by the lexer.
 
 func rulePF2() Rule {
-	return Rule{ID: "PF2", Kind: "must", Floor: 3,
+	return Rule{ID: "PF2", Kind: "must", Floor: 2,
 		Doc: "every Value the lexer gives a backslash or single-quote ast.Quote is a one-element Word holding a *ast.Lit (consumers assert that type); double-quote values are whole words",
 		Run: func(c *Ctx, rr *core.RuleResult) {
 			isOneLit := func(info *types.Info, e ast.Expr) bool {
